@@ -106,6 +106,21 @@ class C01ValidOutput(Checker):
     the whole path from the serialised root, its child-name sequence is a word of its content model."""
 
     def after(self, w, op, ev):
+        if op['op'] == 'WRITE' and ev['r'] == 'ok':
+            from .simfs import MOUNT
+            node = w.docs.get(op['doc'])
+            data = w.fs.files.get(MOUNT + op['path'])
+            if node is None or not node.xsd_check or data is None:
+                return
+            try:
+                et = ET.fromstring(data)
+            except ET.ParseError:
+                return
+            w.count('c01.written_files_judged')
+            bad = check_tree_valid(node, et, top=True)
+            if bad:
+                w.violate('C01', bad[0], dict(bad[1], via='write'))
+            return
         if op['op'] != 'TO_STRING' or ev['r'] != 'ok':
             return
         node = w.node(op['p'])
